@@ -64,14 +64,21 @@ def mask_for(draw, size, kind=None):
     return m
 
 
+TINY = [2.0 ** -30, -(2.0 ** -30), 3 * 2.0 ** -40, -(2.0 ** -27), 2.0 ** -60, 2.0 ** -100]
+
+
 @st.composite
-def array_spec(draw, size, dtype, fuzzy=False, pool=None, mask_kind=None, payload=True, wide=False):
+def array_spec(draw, size, dtype, fuzzy=False, pool=None, mask_kind=None, payload=True, wide=False, tiny=False):
     if fuzzy:
         base = lattice_floats(-1, 1)
     elif dtype.startswith("int"):
         base = lattice_ints()
     elif wide:
         base = st.one_of(lattice_floats(), st.floats(min_value=-1e150, max_value=1e150, allow_nan=False, allow_subnormal=True))
+    elif tiny:
+        # non-zero values far below any "close to zero" tolerance (numpy's isclose / masked_values use 1e-8): they are
+        # ordinary numbers to every arithmetic definition, in particular ordinary divisors
+        base = st.one_of(lattice_floats(), lattice_floats(), st.sampled_from(TINY))
     else:
         base = lattice_floats()
     elems = base if not pool else st.one_of(st.sampled_from(pool), base)
@@ -220,7 +227,7 @@ def arity(cmd):
 
 @st.composite
 def unit_case(draw, cmds, max_rank=1, dtypes=("float64", "int64"), wild=False, mask_kind=None, min_cells=1,
-              max_cells=24, wide=False, same_dtype=False, two_distinct=False):
+              max_cells=24, wide=False, same_dtype=False, two_distinct=False, tiny=False):
     cmd = draw(st.sampled_from(list(cmds)))
     n = draw(arity(cmd))
     if max_rank == 1:
@@ -241,7 +248,7 @@ def unit_case(draw, cmds, max_rank=1, dtypes=("float64", "int64"), wild=False, m
             dtype = first_dtype
         first_dtype = first_dtype or dtype
         use_pool = [int(x) for x in pool] if dtype.startswith("int") else pool
-        spec = draw(array_spec(size, dtype, fuzzy=fuzzy, pool=use_pool, mask_kind=mask_kind, wide=wide and not fuzzy))
+        spec = draw(array_spec(size, dtype, fuzzy=fuzzy, pool=use_pool, mask_kind=mask_kind, wide=wide and not fuzzy, tiny=tiny))
         if two_distinct and size >= 2:
             m = spec["mask"] or [0] * size
             if len(set(x for x, mm in zip(spec["data"], m) if not mm)) < 2:
